@@ -41,6 +41,34 @@ class UserFuture(AbstractContract):
     margin_requirement = property(lambda s: s._mr)
 
 
+class UserSpot(AbstractContract):
+    """Spot-like (paid in full, no margin) defined directly on AbstractContract - not through Asset (the way the
+    package itself defines Rate)."""
+    cash_requirement = 1.0
+
+    def __init__(self, symbol, multiplier):
+        self._s = symbol
+        self._m = float(multiplier)
+
+    symbol = property(lambda s: s._s)
+    multiplier = property(lambda s: s._m)
+    margin_requirement = property(lambda s: 0.0)
+
+
+class AssetFuture(Asset):
+    """Margined contract (nothing paid upfront) that derives from Asset: what a contract IS follows from its
+    cash / margin requirement, not from its base class."""
+    cash_requirement = 0.0
+
+    def __init__(self, symbol, multiplier, margin_requirement):
+        super().__init__(symbol)
+        self._m = float(multiplier)
+        self._mr = float(margin_requirement)
+
+    multiplier = property(lambda s: s._m)
+    margin_requirement = property(lambda s: s._mr)
+
+
 def contract_pool(rng):
     """A shuffled mix of built-in and user-defined contracts."""
     pool = [
@@ -49,6 +77,7 @@ def contract_pool(rng):
         ES(2019, 6), ZN(2019, 9), NK(2019, 12), ZQ(2019, 9),
         UserFuture("F1", rng.choice([1, 5, 250]), rng.choice([0.01, 0.3, 1.0])),
         UserFuture("F2", 2.5, 0.5),
+        UserSpot("U3", rng.choice([1.0, 3.0, 0.5])), AssetFuture("AF", rng.choice([1, 20]), rng.choice([0.05, 0.4])),
     ]
     rng.shuffle(pool)
     return pool
